@@ -467,8 +467,8 @@ Qed.
 Theorem blocker_optimize_generic_hide b : wf_blocker b ->
   generic_hide_hit rmatch pr (blocker_optimize b) = generic_hide_hit rmatch pr b.
 Proof.
-  intros (_ & _ & _ & _ & Wg). unfold generic_hide_hit, blocker_optimize. cbn [b_generic_hide].
-  apply (found_b_optimize _ [] Wg).
+  intros (_ & _ & _ & _ & Wg). unfold generic_hide_hit, blocker_optimize. cbn [b_generic_hide b_tags].
+  apply (found_b_optimize _ (b_tags b) Wg).
 Qed.
 
 (* redirect and csp rules are never fused: the hit sets are unchanged; removeparam is not optimized *)
